@@ -67,6 +67,10 @@ func (n *node) RouteSendPID(from gen.PID, to gen.PID, options gen.MessageOptions
 			return gen.ErrProcessMailboxFull
 		}
 
+		if fallbackLoop(p.pid, message) {
+			return gen.ErrProcessMailboxFull
+		}
+
 		fbm := gen.MessageFallback{
 			PID:     p.pid,
 			Tag:     p.fallback.Tag,
@@ -78,6 +82,22 @@ func (n *node) RouteSendPID(from gen.PID, to gen.PID, options gen.MessageOptions
 	atomic.AddUint64(&p.messagesIn, 1)
 	p.run()
 	return nil
+}
+
+// fallbackLoop reports whether the message has already been refused by the full mailbox
+// of the given process: a refused message travels from fallback process to fallback
+// process wrapped in gen.MessageFallback, one layer per hop
+func fallbackLoop(pid gen.PID, message any) bool {
+	for {
+		fb, ok := message.(gen.MessageFallback)
+		if ok == false {
+			return false
+		}
+		if fb.PID == pid {
+			return true
+		}
+		message = fb.Message
+	}
 }
 
 func (n *node) RouteSendProcessID(from gen.PID, to gen.ProcessID, options gen.MessageOptions, message any) error {
@@ -138,6 +158,10 @@ func (n *node) RouteSendProcessID(from gen.PID, to gen.ProcessID, options gen.Me
 		}
 
 		if p.fallback.Name == p.name {
+			return gen.ErrProcessMailboxFull
+		}
+
+		if fallbackLoop(p.pid, message) {
 			return gen.ErrProcessMailboxFull
 		}
 
@@ -221,6 +245,10 @@ func (n *node) RouteSendAlias(from gen.PID, to gen.Alias, options gen.MessageOpt
 		}
 
 		if p.fallback.Name == p.name {
+			return gen.ErrProcessMailboxFull
+		}
+
+		if fallbackLoop(p.pid, message) {
 			return gen.ErrProcessMailboxFull
 		}
 
